@@ -1,4 +1,5 @@
 import Shisui.Offer
+import Shisui.OfferLifecycle
 import Driver.Util
 /-! C09 driver: `handleOffer` (step equality on the decoded ACCEPT), end-to-end offers between two real instances (what
     reaches the validation queue), `handleOfferedContents` on streams with a wrong item count. -/
@@ -56,6 +57,20 @@ def step (quirkV0 : Bool) (toks : List String) (impl : String) : Res :=
   | some "offer" => stepOffer quirkV0 toks impl
   | some "offer2" => stepOffer2 toks impl
   | some "offered" => stepOffered toks impl
+  | some "inflight" =>
+    -- a history of version-1 offers over a pool of fresh in-range keys: `p:` the peer never connects (its accepted keys
+    -- stay in flight), `c:` the transfer ends at once (its own accepted keys are cleared, nothing else)
+    let ops := (kv toks "ops").splitOn ";"
+    let r := ops.foldl (fun (acc : Ofl.St × List String × Nat) op =>
+      let keys := ((op.drop 2).toString.splitOn ".").filterMap String.toNat?
+      let st := Ofl.step acc.1 (.offer keys)
+      let out := ",".intercalate (st.2.map Verdict.name)
+      let s' := if op.startsWith "c:" then (Ofl.step st.1 (.finish acc.2.2)).1 else st.1
+      (s', acc.2.1 ++ [out], acc.2.2 + 1)) (({} : Ofl.St), [], 0)
+    let m := "/".intercalate r.2.1
+    let nC := (ops.filter (·.startsWith "c:")).length
+    { model := m, monitor := if impl == m then [] else ["accepted_only_if_not_already_being_received"],
+      tags := ["inflight", s!"ends{nC}"], nontrivial := ops.length > 2 }
   | some "overlap" =>
     -- two version-1 offers of the same fresh in-range key, back to back: the first is accepted and is being received
     -- when the second is answered (Of.verdictV1 with inflight = true)
